@@ -42,6 +42,8 @@ contract(
     ensures=[
         ('clip_factor', 'result == nu(self.kl_clip, clip_sum(self, len(self._layers)))'),
         ('zero_inner_product_gives_one', 'implies(clip_sum(self, len(self._layers)) == 0.0, result == 1.0)'),
+        ('preconditioned_gradients_kept', 'all(awaited(self._layers[m][1]._grad) is old(awaited(self._layers[m][1]._grad)) for m in self._layers)'),
+        ('nothing_else_moves', "frame_same('Tensor.val') and frame_same('Tensor.shape') and frame_same('Tensor.grad') and frame_same('Future.will_be')"),
     ],
     loops={'0': dict(index='i', unfold=['clip_sum_step'], invariants=[
         ('partial_sum', 'vg_sum == clip_sum(self, i)'),
